@@ -110,6 +110,26 @@ fn check<OF, DS, K>(
         }
     };
     let actual = rt::guard(|| c.find_best_match(obs));
+    judge_answer(ctx, c, obs, case, obs_text, db_dump, expected, actual);
+}
+
+/// Compare one answer (of `find_best_match`, or of a matcher object that wraps it) with the
+/// expectation of the full scan.
+#[allow(clippy::too_many_arguments, clippy::type_complexity)]
+fn judge_answer<'c, OF, DS, K>(
+    ctx: &mut Ctx,
+    c: &'c FingerprintCollection<OF, DS, K>,
+    obs: &OF,
+    case: &Case,
+    obs_text: &dyn Fn() -> String,
+    db_dump: &dyn Fn() -> Value,
+    expected: Option<(usize, usize, u32, usize, usize)>,
+    actual: Result<Option<(&'c Label, &'c DS, f32)>, String>,
+) where
+    OF: ObservedFingerprint<Key = K>,
+    DS: DatabaseSignature<OF> + Display,
+    K: IndexKey,
+{
     let actual = match actual {
         Ok(a) => a,
         Err(p) => {
@@ -379,6 +399,50 @@ fn bundled(ctx: &mut Ctx) {
         check(ctx, &db.http_response, &p, &Case { coll: "http_response", db: "bundled", workload: "random", shape: &shape }, &|| o.text(), &|| json!("bundled p0f.fp"));
     }
     ctx.stage_add("bundled_signatures_instantiated", idx / ctx.nshards as u64);
+
+    // The matcher objects the analyzers hold for their whole life (`SignatureMatcher` of the TCP
+    // and HTTP crates) answer sequences of lookups: every answer of one long-lived matcher must
+    // be the full-scan answer for THAT observation, whatever was looked up before (consecutive
+    // observations here often share the index key and differ in the other fields).
+    let tm = huginn_net_tcp::SignatureMatcher::new(&db);
+    let hm = huginn_net_http::SignatureMatcher::new(&db);
+    let n = ctx.scale(60_000, 1_500_000, 30) / ctx.nshards as u64 + 1;
+    let mut r = ctx.rng(24);
+    for i in 0..n {
+        let mut o = tg.random_obs(&mut r);
+        if i % 2 == 1 {
+            // same layout, version and payload class as the lookup before, other fields fresh
+            let prev = tg.random_obs(&mut r);
+            o.ittl = prev.ittl;
+            o.mss = prev.mss;
+            o.wsize = prev.wsize;
+            o.wscale = prev.wscale;
+        }
+        let shape = tcp_shape(None, &o);
+        let ot = huginn_net_tcp::observable::ObservableTcp { matching: o.clone() };
+        for (name, c, req) in [("tcp_request", &db.tcp_request, true), ("tcp_response", &db.tcp_response, false)] {
+            let expected = match rt::guard(|| full_scan(c, &o)) {
+                Ok(e) => e,
+                Err(_) => continue,
+            };
+            let actual = rt::guard(|| if req { tm.matching_by_tcp_request(&ot) } else { tm.matching_by_tcp_response(&ot) });
+            judge_answer(ctx, c, &o, &Case { coll: name, db: "bundled", workload: "matcher-sequence", shape: &shape }, &|| siggen::tcp_obs_text(&o), &|| json!("bundled p0f.fp"), expected, actual);
+        }
+        if i % 4 == 0 {
+            let h = hg.random_obs(&mut r);
+            let shape = http_shape(None, &h);
+            let q = huginn_net_http::observable::ObservableHttpRequest { matching: h.req(), lang: None, user_agent: None, headers: vec![], cookies: vec![], referer: None, method: None, uri: None };
+            let p = huginn_net_http::observable::ObservableHttpResponse { matching: h.resp(), headers: vec![], status_code: None };
+            if let Ok(expected) = rt::guard(|| full_scan(&db.http_request, &q.matching)) {
+                let actual = rt::guard(|| hm.matching_by_http_request(&q));
+                judge_answer(ctx, &db.http_request, &q.matching, &Case { coll: "http_request", db: "bundled", workload: "matcher-sequence", shape: &shape }, &|| h.text(), &|| json!("bundled p0f.fp"), expected, actual);
+            }
+            if let Ok(expected) = rt::guard(|| full_scan(&db.http_response, &p.matching)) {
+                let actual = rt::guard(|| hm.matching_by_http_response(&p));
+                judge_answer(ctx, &db.http_response, &p.matching, &Case { coll: "http_response", db: "bundled", workload: "matcher-sequence", shape: &shape }, &|| h.text(), &|| json!("bundled p0f.fp"), expected, actual);
+            }
+        }
+    }
 }
 
 fn generated(ctx: &mut Ctx) {
@@ -509,7 +573,7 @@ pub fn spec() -> PropSpec {
         id: "C02",
         run,
         shards: super::shards_16,
-        rule: "for the bundled database and for generated databases (loaded from p0f text, or built with FingerprintCollection::new), every signature is instantiated over all wildcard fillings (IPv4/IPv6, payload class, HTTP 1.0/1.1/2/3) and each instance is perturbed in one field; plus random observations from the database's own value pools; each observation's find_best_match is compared (label and signature identity, quality bits) with the first minimum of a full scan using the library's own calculate_distance; a bucket is a distinct (collection, workload kind, signature wildcard shape x observation shape, expected distance / number of accepting signatures / number of ties) class",
+        rule: "for the bundled database and for generated databases (loaded from p0f text, or built with FingerprintCollection::new), every signature is instantiated over all wildcard fillings (IPv4/IPv6, payload class, HTTP 1.0/1.1/2/3) and each instance is perturbed in one field; plus random observations from the database's own value pools, also as sequences of lookups through one long-lived SignatureMatcher of the TCP and of the HTTP crate; each observation's find_best_match is compared (label and signature identity, quality bits) with the first minimum of a full scan using the library's own calculate_distance; a bucket is a distinct (collection, workload kind, signature wildcard shape x observation shape, expected distance / number of accepting signatures / number of ties) class",
         assumptions: &[
             "the library's calculate_distance/get_quality_score are the given here (their semantics are C12's business)",
             "observations stay in the value space an analyzer emits for the indexed fields: IP version V4/V6, payload class Zero/NonZero, HTTP version 1.0/1.1/2/3 (never the wildcard variants)",
